@@ -1,16 +1,16 @@
 """Per-property claims (source of MANIFEST.json; tools/gen_manifest.py renders it)."""
 HOOK_COMMITS = []
 ENGINES = [
-    {"name": "lean-model", "path": "lean/", "serves_properties": ["C01", "C02", "C03", "C04", "C07", "C11", "C12", "C16", "C17", "C20"],
+    {"name": "lean-model", "path": "lean/", "serves_properties": ["C01", "C02", "C03", "C04", "C05", "C07", "C11", "C12", "C16", "C17", "C20"],
      "kind_free_text": "Lean 4 library Dbus (Spec, Model, Proofs, Props) + compiled line-protocol driver dbus-model"},
-    {"name": "tabulator", "path": "gen/", "serves_properties": ["C01", "C02", "C03", "C04", "C07", "C11", "C12", "C16", "C17", "C20"],
+    {"name": "tabulator", "path": "gen/", "serves_properties": ["C01", "C02", "C03", "C04", "C05", "C07", "C11", "C12", "C16", "C17", "C20"],
      "kind_free_text": "C translation units that #include repo sources and print finite tables; rendered to lean/Dbus/Generated"},
-    {"name": "h-lib", "path": "harness/lib/", "serves_properties": ["C01", "C02", "C03", "C04", "C07", "C11", "C12", "C16", "C17", "C20"],
+    {"name": "h-lib", "path": "harness/lib/", "serves_properties": ["C01", "C02", "C03", "C04", "C05", "C07", "C11", "C12", "C16", "C17", "C20"],
      "kind_free_text": "in-process C harnesses linked against the ASan/UBSan build of the working tree"},
 ]
 PENDING = "not implemented yet in this round (planned, see DESIGN.md §4/§7); no check is claimed"
 NOT_APPLICABLE = {p: PENDING for p in
-                  ["C05", "C06", "C08", "C09", "C10", "C13", "C14", "C15",
+                  [ "C06", "C08", "C09", "C10", "C13", "C14", "C15",
                    "C18", "C19"]}
 BUS_TIE = ("The bus model (lean/Dbus/Model/Bus: dispatch, driver methods, registry, match delivery, policy gate, pending replies, "
            "disconnect cleanup; method table regenerated from bus/driver.c) is tied to the real dbus-daemon (ASan/UBSan build of the working "
@@ -28,6 +28,16 @@ CHECKS = {
                 "order and injectivity of the decimal rendering), a second Hello is refused, and a name once given is never changed "
                 "(name_is_for_life). " + BUS_TIE,
         "note": "The counters are unbounded naturals in the model; the C code's signed-int wrap after 2^31 names is not modelled.",
+    },
+    "C05": {
+        "text": "Proved in Lean for every bus state, sender and message: a message naming a destination whose primary owner is a, and which "
+                "the policy gate admits, yields one copy to a, first, then at most one copy to each connection holding an eavesdropping "
+                "match rule that matches it, a not among them (unicast_reaches_owner_once, recipient_of_unicast_eavesdrops, "
+                "addressed_not_recipient); with no owner nothing is delivered and the route ends in an error (no_owner_no_delivery), likewise "
+                "when the gate refuses (refused_no_delivery); the error reply is at most one, from the bus, carrying the message's serial "
+                "(undeliverable_one_error); the forwarded copy keeps body, signature, type, flags, serial and every defined header field "
+                "but SENDER (forwarded_fields_intact, forwarded_rest_intact); outputs extend in processing order. " + BUS_TIE,
+        "note": "Partial: 'recipients that read slowly' (socket back-pressure, max_outgoing_bytes) and auto-start holding (C19) are outside this model; the daemon is single-threaded, so 'the moment the bus processes it' is a step of the model.",
     },
     "C04": {
         "text": "The specification's RequestName/ReleaseName rules are written out in Lean (Spec/Names.lean, from doc/dbus-specification.xml). "
